@@ -4,6 +4,7 @@ import (
 	"encoding/json"
 	"fmt"
 	"math"
+	"math/big"
 	"os"
 	"path/filepath"
 	"strings"
@@ -51,6 +52,47 @@ func c03Validators(r *lp.Run, rng *lp.Rand) {
 			return "ok"
 		})
 		r.Case("vint", fmt.Sprintf("%s %d %s %s %d %s %s %d %d", bs(t.MinSet), t.Min, bs(t.MinExclusive), bs(t.MaxSet), t.Max, bs(t.MaxExclusive), bs(t.MultipleOfSet), t.MultipleOf, v), out, "vint:"+out, t.MinSet || t.MaxSet || t.MultipleOfSet)
+	}
+	// validate.Float against the exact-rational model: bit patterns, bounds as bit patterns, multipleOf as a ratio
+	floats := []float64{0, math.Copysign(0, -1), 1, -1, 0.5, -0.25, 1.5, 2, 3, 0.1, 0.2, 0.30000000000000004, 1e-11, 1e21, 123456.789, math.MaxFloat64, -math.MaxFloat64, math.SmallestNonzeroFloat64, 9007199254740993, 9007199254740992, -2.5, 0.75, 7, 10, 100, math.Inf(1), math.Inf(-1), math.NaN()}
+	rats := [][2]int64{{1, 1}, {1, 2}, {1, 4}, {3, 1}, {1, 10}, {1, 3}, {5, 2}, {-1, 4}, {1, 1000000}, {7, 1}, {1, 8}, {25, 100}}
+	for i := 0; i < n/2; i++ {
+		pickF := func() float64 {
+			switch x := rng.Intn(10); {
+			case x < 6:
+				return lp.Pick(rng, floats[:len(floats)-3])
+			case x < 8:
+				return float64(rng.Intn(41)-20) * 0.25
+			default:
+				return math.Float64frombits(rng.Uint64())
+			}
+		}
+		mn, mx := pickF(), pickF()
+		for math.IsNaN(mn) || math.IsInf(mn, 0) {
+			mn = pickF()
+		}
+		for math.IsNaN(mx) || math.IsInf(mx, 0) {
+			mx = pickF()
+		}
+		rt := lp.Pick(rng, rats)
+		t := validate.Float{MinSet: rng.Bool(), Min: mn, MinExclusive: rng.Bool(), MaxSet: rng.Bool(), Max: mx, MaxExclusive: rng.Bool(), MultipleOfSet: rng.Chance(50), MultipleOf: big.NewRat(rt[0], rt[1])}
+		v := pickF()
+		if rng.Chance(10) {
+			v = lp.Pick(rng, floats)
+		}
+		if rng.Chance(25) && t.MinSet {
+			v = lp.Pick(rng, []float64{t.Min, math.Nextafter(t.Min, math.Inf(1)), math.Nextafter(t.Min, math.Inf(-1))})
+		}
+		if rng.Chance(15) && t.MaxSet {
+			v = lp.Pick(rng, []float64{t.Max, math.Nextafter(t.Max, math.Inf(1)), math.Nextafter(t.Max, math.Inf(-1))})
+		}
+		out := lp.Guard(func() string {
+			if err := t.Validate(v); err != nil {
+				return "err"
+			}
+			return "ok"
+		})
+		r.Case("vfloat", fmt.Sprintf("%016x %s %016x %s %s %016x %s %s %d %d", math.Float64bits(v), bs(t.MinSet), math.Float64bits(t.Min), bs(t.MinExclusive), bs(t.MaxSet), math.Float64bits(t.Max), bs(t.MaxExclusive), bs(t.MultipleOfSet), rt[0], rt[1]), out, "vfloat:"+out, t.MinSet || t.MaxSet || t.MultipleOfSet)
 	}
 	for i := 0; i < n/4; i++ {
 		a := validate.Array{MinLengthSet: rng.Bool(), MinLength: rng.Intn(6), MaxLengthSet: rng.Bool(), MaxLength: rng.Intn(6)}
